@@ -1,0 +1,12 @@
+// Copyright (c) HashiCorp, Inc.
+// SPDX-License-Identifier: MPL-2.0
+
+//go:build !verif
+
+package tls
+
+import "crypto/tls"
+
+// simOrderConfigs is a deterministic-simulation hook; without the "verif"
+// build tag it compiles to nothing.
+func simOrderConfigs([]*tls.Config) {}
